@@ -29,6 +29,12 @@ pub trait Lab<C: Ciphersuite> {
     fn adv_scalar(&mut self, name: &str) -> Scalar<C>;
     /// an adversarially chosen group element of unknown discrete logarithm (non-identity)
     fn adv_element(&mut self, name: &str) -> Element<C>;
+    /// an adversarial scalar like `adv_scalar`, with named candidate values it may coincide with:
+    /// purely a replay aid (a counterexample in which the value equals candidate k is replayed
+    /// with the concrete candidate k) — symbolically the value is just as free
+    fn adv_scalar_among(&mut self, name: &str, _candidates: &[Scalar<C>]) -> Scalar<C> {
+        self.adv_scalar(name)
+    }
     /// an arbitrary message
     fn message(&mut self, name: &str) -> Vec<u8>;
 
